@@ -74,7 +74,12 @@ def homog_compose(ctx, A, B_=None, d=2, side='before', **kw):
         # projective maps: the law is stated where all homogeneous
         # coordinates are non-zero
         pass
+    if A == 'Homogeneous' or Bn == 'Homogeneous':
+        ix = B.assume_in_domain(ctx, inner, x)
+        B.assume_in_domain(ctx, outer, ix)
     y = outer.apply(inner.apply(x))
+    if A == 'Homogeneous' or Bn == 'Homogeneous':
+        B.assume_in_domain(ctx, c, x)
     ctx.check_eq('law', c.apply(x), y)
     # honesty of the reported class
     check_honest(ctx, 'result', c, d)
@@ -129,10 +134,11 @@ def homog_compose_inplace(ctx, A, d, side, **kw):
         ctx.check_eq('refused/receiver-unchanged', a.h_matrix, ha)
         ctx.check_true('refused/is-outside-declared-domain', not isinstance(b, a.composes_inplace_with))
         return
-    if side == 'before':
-        y = b.apply(a0.apply(x))
-    else:
-        y = a0.apply(b.apply(x))
+    inner, outer = (a0, b) if side == 'before' else (b, a0)
+    ix = B.assume_in_domain(ctx, inner, x)
+    B.assume_in_domain(ctx, outer, ix)
+    B.assume_in_domain(ctx, a, x)
+    y = outer.apply(inner.apply(x))
     ctx.check_eq('law', a.apply(x), y)
     check_honest(ctx, 'receiver', a, d)
     ctx.check_eq('invertible/det=detA*detB', B.det(a.h_matrix), B.det(ha) * B.det(hb))
